@@ -137,11 +137,40 @@ def shortest_digits(x):
     raise AssertionError("17 digits do not round-trip: %r" % x)
 
 
+_DIGITS = {}       # float.hex() -> (neg, ds, n); filled in bulk by precompute_digits (thorough volumes)
+
+
+def digits_of(x):
+    k = x.hex()
+    r = _DIGITS.get(k)
+    if r is None:
+        r = _DIGITS[k] = shortest_digits(x)
+    return r
+
+
+def _digits_chunk(hexes):
+    return [shortest_digits(float.fromhex(h)) for h in hexes]
+
+
+def precompute_digits(xs, workers):
+    """shortest digits of many doubles, in worker processes (exact rational arithmetic is the cost)"""
+    from concurrent.futures import ProcessPoolExecutor
+    hexes = sorted({x.hex() for x in xs if x == x and x not in (math.inf, -math.inf) and x != 0} - set(_DIGITS))
+    if len(hexes) < 20000:
+        return
+    size = max(2000, len(hexes) // (workers * 8))
+    chunks = [hexes[i:i + size] for i in range(0, len(hexes), size)]
+    with ProcessPoolExecutor(max_workers=workers) as ex:
+        for ch, res in zip(chunks, ex.map(_digits_chunk, chunks)):
+            for h, r in zip(ch, res):
+                _DIGITS[h] = r
+
+
 def es6_number(x):
     """ECMA-262 Number::toString for a finite double."""
     if x == 0:
         return "0"
-    neg, ds, n = shortest_digits(x)
+    neg, ds, n = digits_of(x)
     k = len(ds)
     d = "".join(map(str, ds))
     if k <= n <= 21:
@@ -333,11 +362,11 @@ def gen_numbers(rng, tier):
         xs += [float(2 ** k), float(2 ** k + 2 ** (k - 52)), -float(3 * 2 ** (k - 1))]
     xs += [float(10 ** k) for k in range(0, 23)] + [float(10 ** k + 10 ** (k - 15)) for k in range(16, 23)]
     # integer-valued and short decimals
-    for _ in range(700 if not big else 5000):
+    for _ in range(700 if not big else 20000):
         xs.append(float(rng.randrange(-10 ** rng.randrange(1, 17), 10 ** rng.randrange(1, 17))))
         xs.append(rng.randrange(1, 10 ** rng.randrange(1, 8)) / 10 ** rng.randrange(0, 12))
     # random bit patterns, exponent field uniform
-    n_rand = 3500 if not big else 60000
+    n_rand = 3500 if not big else 600000
     for _ in range(n_rand):
         e = rng.randrange(0, 2047)
         m = rng.getrandbits(52)
@@ -353,7 +382,7 @@ def gen_numbers(rng, tier):
         xs.append(bits_to_float((rng.getrandbits(1) << 63) | (e << 52) | m))
     # the ES6 switch regions 1e-7..1e-5 and 1e20..1e22, and repr's 1e-5..1e-3, 1e15..1e17
     for lo, hi in ((1e-8, 1e-5), (1e19, 1e23), (1e-6, 1e-2), (1e14, 1e18)):
-        for _ in range(300 if not big else 4000):
+        for _ in range(300 if not big else 20000):
             xs.append(math.exp(rng.uniform(math.log(lo), math.log(hi))) * rng.choice((1, -1)))
     return xs
 
@@ -497,7 +526,7 @@ def num_term(x):
     r = repr(x)
     if x == 0 or x != x or x in (math.inf, -math.inf):
         return "cj (JFloat %s)" % common.coq_ustr(r)
-    neg, ds, n = shortest_digits(x)
+    neg, ds, n = digits_of(x)
     return "num3 %s %s %s %s" % (common.coq_str(r), common.coq_bool(neg), common.coq_str("".join(map(str, ds))), common.coq_Z(n))
 
 
@@ -561,6 +590,55 @@ def eval_terms(tag, header, terms, max_chars=24000, max_terms=500, timeout=900):
 
 
 # --------------------------------------------------------------------------
+# extraction route (thorough tier): the number part of the model compiled to OCaml
+
+EXTRACT_DIR = os.path.join(common.VERIF, "extract", "c16")
+
+
+def build_extracted():
+    """coqc the extraction file against the built development, then ocamlopt; -> path of the executable"""
+    for cmd in (["timeout", "600", "coqc", "-Q", common.COQ, "V", "Extract.v"],
+                ["timeout", "600", "ocamlfind", "ocamlopt", "-w", "-a", "c16num.mli", "c16num.ml", "driver.ml", "-o", "c16num.exe"]):
+        p = subprocess.run(cmd, cwd=EXTRACT_DIR, stdout=subprocess.PIPE, stderr=subprocess.STDOUT, text=True)
+        if p.returncode != 0:
+            raise RuntimeError("%s failed:\n%s" % (" ".join(cmd[2:4]), p.stdout[-1500:]))
+    return os.path.join(EXTRACT_DIR, "c16num.exe")
+
+
+def extracted_line(x):
+    r = repr(x)
+    if x == 0 or x != x or x in (math.inf, -math.inf):
+        return "P %s" % r
+    neg, ds, n = digits_of(x)
+    return "N %s %d %s %d" % (r, 1 if neg else 0, "".join(map(str, ds)), n)
+
+
+def eval_numbers_extracted(exe, xs):
+    """-> result lines in the format of the kernel route (num3 / cj)"""
+    lines = [extracted_line(x) for x in xs]
+    n = max(1, common.NCPU)
+    chunks = [lines[i::n] for i in range(n)]
+
+    def run(chunk):
+        if not chunk:
+            return []
+        p = subprocess.run([exe], input="\n".join(chunk) + "\n", stdout=subprocess.PIPE, stderr=subprocess.PIPE, text=True)
+        out = p.stdout.split("\n")
+        if out and out[-1] == "":
+            out.pop()
+        if p.returncode != 0 or len(out) != len(chunk):
+            raise RuntimeError("extracted model failed: rc=%s, %d results for %d cases\n%s"
+                               % (p.returncode, len(out), len(chunk), p.stderr[-800:]))
+        return out
+
+    with ThreadPoolExecutor(max_workers=n) as ex:
+        parts = list(ex.map(run, chunks))
+    res = [None] * len(lines)
+    for i, part in enumerate(parts):
+        for j, r in enumerate(part):
+            res[i + j * n] = r
+    return res
+
 
 def run_cases(values):
     return [dec_obs(o) for o in common.run_impl("c16_impl", [{"v": enc(v)} for v in values])]
@@ -634,9 +712,21 @@ def check(run):
     ints = gen_ints(rng, run.tier)
     groups_vals = gen_docs(rng, run.tier, numbers, ints)
 
+    # thorough tier: numbers go through the extracted OCaml model (a sample also through the kernel route)
+    exe = None
+    if run.tier == "thorough":
+        try:
+            with common.Lock():
+                exe = build_extracted()
+        except (RuntimeError, OSError) as e:
+            run.broken.append(Broken("obligation", "extraction of the number model (extract/c16)", {"error": str(e)[-1200:]}))
+        precompute_digits(numbers, common.NCPU)
+    kernel_numbers = set(range(len(numbers))) if exe is None else set(rng.sample(range(len(numbers)), min(3000, len(numbers))))
+    run.coverage["routes"] = {"extracted_numbers": 0 if exe is None else len(numbers), "kernel_numbers": len(kernel_numbers)}
+
     values, terms, kinds = [], [], []
-    for x in numbers:
-        values.append(x); terms.append(num_term(x)); kinds.append("num")
+    for i, x in enumerate(numbers):
+        values.append(x); terms.append(num_term(x) if i in kernel_numbers else None); kinds.append("num")
     for z in ints:
         values.append(z); terms.append("cj (JInt %s)" % common.coq_Z(z)); kinds.append("int")
     groups = []
@@ -669,7 +759,22 @@ def check(run):
     # ---- correspondence: model (and py_repr / es6_tostring) inside Coq
     try:
         n_num = len(numbers)
-        lines = eval_terms("c16", HEADER, terms[:n_model])
+        todo = [i for i in range(n_model) if terms[i] is not None]
+        klines = eval_terms("c16", HEADER, [terms[i] for i in todo])
+        lines = [None] * n_model
+        for i, l in zip(todo, klines):
+            lines[i] = l
+        if exe is not None:
+            xlines = eval_numbers_extracted(exe, numbers)
+            route_dis = []
+            for i in range(n_num):
+                if lines[i] is None:
+                    lines[i] = xlines[i]
+                elif lines[i] != xlines[i]:
+                    route_dis.append({"float": numbers[i].hex(), "kernel": lines[i][:200], "extracted": xlines[i][:200]})
+            run.coverage["route_cross_check"] = {"compared": len(kernel_numbers), "disagreements": len(route_dis)}
+            if route_dis:
+                run.broken.append(Broken("correspondence", "kernel route vs extracted route", {"first": route_dis[:5]}))
         dis, repr_dis, spec_dis, out_of_model = [], [], [], 0
         for i in range(n_model):
             v, o, line = values[i], obs[i], lines[i]
